@@ -12,12 +12,12 @@ ASSUMPTIONS = P.ASSUMPTIONS + [
 
 def run(ctx, vlib):
     impl, model = M.drivers(vlib)
-    cases = U.load_corpus("C07") + P.reader_cases(ctx["rng"], ctx["tier"])
+    cases = U.load_corpus("C07") + P.reader_cases(ctx["rng"], ctx["tier"]) + P.boundary_cases(ctx["rng"], ctx["tier"])
     oi = vlib.run_driver(impl, cases)
     om = vlib.run_driver(model, cases)
     return P.assess("C07", vlib, cases, oi, om, P.judge_reader,
                     nontrivial=lambda line, out: not out.startswith("ERR P") or len(line.split(" ")[-1]) > 2,
-                    rule="all 256 first bytes x 6 tails x every read op x {throw, skip} x {string reader, stream reader}; random value trees encoded by an independent encoder choosing format widths at random (fixint/uint8..64/int8..64, fixstr/str8/16/32, fixarray/array16/32, fixext/ext8/16/32 timestamps), read by every op; all-position truncations and single-byte corruptions of a sample; non-trivial = distinct case other than a bare parsing error on a one-byte input")
+                    rule="all 256 first bytes x 6 tails x every read op x {throw, skip} x {string reader, stream reader}; random value trees encoded by an independent encoder choosing format widths at random (fixint/uint8..64/int8..64, fixstr/str8/16/32, fixarray/array16/32, fixext/ext8/16/32 timestamps), read by every op; all-position truncations and single-byte corruptions of a sample; read sequences over documents shifted by a leading string of every length 0..11, 236..261, 492..519 (all 0..529 in thorough) so that values, keys and length fields straddle the stream reader's 256-byte chunk, plus strings/binaries/arrays of 255..1000 units; non-trivial = distinct case other than a bare parsing error on a one-byte input")
 
 
 def replay(rp, vlib):
